@@ -8,12 +8,16 @@
 (*     long-lived decoder object per short history of calls;               *)
 (*     TLC recomputes the textbook result with BP instantiated by MinSum   *)
 (*     and requires equality of verdict, word and iteration count.         *)
+(*  Dec8 {name, kind, phl, jones, deg1, sched, rows, n, x8, limit, result}  *)
+(*     the 20 factory-built 8-bit decoders vs BP8.tla (= BP o Arith)        *)
 (*  Post {arith, sched, f32, rows, n, its, len, err_cb, refc}              *)
 (*     real sum-product arithmetics on a forest, forced to iterate `its'   *)
 (*     >= diameter times: distance (centibels) of every per-bit LLR from   *)
 (*     the brute-force posterior must be within floating-point tolerance.  *)
 (***************************************************************************)
 EXTENDS TraceKit, MinSum
+
+E8 == INSTANCE BP8
 
 B == INSTANCE BP WITH Quant <- MSQuant, Hard <- MSHard, CheckMsg <- MSCheckMsg, VarTotal <- MSVarTotal,
                       VarMsg <- MSVarMsg, ToMsg <- MSToMsg, ZeroMsg <- 0, ResetOutput <- TRUE
@@ -37,7 +41,14 @@ PostOK(ev) ==
   /\ \A c \in 1..Len(ev.rows) : Len(ev.rows[c]) >= 2
   /\ (InRange(ev) => \A v \in 1..ev.n : ev.err_cb[v] <= TolPosterior(ev.f32))
 
-EvOK(ev) == CASE ev.e = "Decode" -> DecodeOK(ev) [] ev.e = "Post" -> PostOK(ev) [] OTHER -> FALSE
+\* the built-in 8-bit decoders (factory-built, reused for three calls) return exactly what the textbook schedule
+\* composed with the exact integer rule set of Arith.tla returns (BP8.tla)
+Dec8OK(ev) ==
+  /\ ev.o = "ok" /\ Len(ev.x8) = ev.n
+  /\ LET r == E8!Result8(ev.kind, ev.phl, ev.jones, ev.deg1, ev.sched, ev.rows, ev.n, ev.x8, ev.limit) IN
+     /\ ev.verdict = r.verdict /\ ev.word = r.word /\ ev.iters = r.iters
+
+EvOK(ev) == CASE ev.e = "Decode" -> DecodeOK(ev) [] ev.e = "Post" -> PostOK(ev) [] ev.e = "Dec8" -> Dec8OK(ev) [] OTHER -> FALSE
 
 Init == l = 1
 Step == /\ l <= NRec
